@@ -147,8 +147,58 @@ LABEL_POOLS = [
 SIMPLE_POOLS = [LABEL_POOLS[0], LABEL_POOLS[1]]
 
 
+def numeric_labels(rng, n):
+    """labels that collide with taxon NUMBERS: NEXUS lets trees name taxa by their 1-based position, so a matrix row or
+    TAXLABELS entry that is itself a plain integer must still mean the taxon with that LABEL.  Families: a permutation
+    of 1..n other than the identity (specimen numbers out of numerical order), a rotation, numbers at the wrong position
+    mixed with names, zero-based numbers, zero-padded numbers, and numbers beyond n."""
+    if n == 1:
+        return [rng.choice(["2", "0", "01", "1"])]
+    fam = rng.choice(["perm", "rot", "mixed", "zero", "padded", "shifted", "reverse"])
+    nums = [str(i + 1) for i in range(n)]
+    if fam == "perm":
+        out = list(nums)
+        while out == nums:
+            rng.shuffle(out)
+        return out
+    if fam == "rot":
+        return nums[1:] + nums[:1]
+    if fam == "reverse":
+        return nums[::-1]
+    if fam == "zero":
+        out = [str(i) for i in range(n)]
+        if rng.random() < 0.5:
+            rng.shuffle(out)
+        return out
+    if fam == "padded":
+        out = ["0" + x for x in nums]
+        rng.shuffle(out)
+        return out
+    if fam == "shifted":
+        out = [str(i + 2) for i in range(n)]          # one label is beyond NTAX, the others name a different position
+        if rng.random() < 0.5:
+            rng.shuffle(out)
+        return out
+    out = []
+    for i in range(n):
+        if rng.random() < 0.5:
+            k = rng.choice([x for x in range(1, n + 1) if x != i + 1])
+            out.append(str(k))
+        else:
+            out.append("n%d" % (i + 1))
+    seen, res = set(), []
+    for i, l in enumerate(out):
+        if l in seen:
+            l = "m%d" % (i + 1)
+        seen.add(l)
+        res.append(l)
+    return res
+
+
 def gen_labels(rng, n, style):
     """style: 'simple' (alnum/underscore-free), 'nospace', 'any'"""
+    if rng.random() < 0.15:
+        return numeric_labels(rng, n)          # admissible in every format and style
     if style == "simple":
         pool = rng.choice(SIMPLE_POOLS)
         pool = [l for l in pool if "_" not in l]
@@ -979,7 +1029,9 @@ def gen_dataset_spec(rng, schema=None, sbt="?", n=None, fancy=None):
         k = rng.randint(1, 4)
         labs = ["%s%d" % (rng.choice("abc") + "qrs"[i], j) for j in range(k)]
         labs = list(dict.fromkeys(labs))
-        if rng.random() < 0.3:
+        if rng.random() < 0.2:
+            labs = numeric_labels(rng, len(labs))
+        elif rng.random() < 0.3:
             labs = labs[:max(1, len(labs) - 1)] + ["shared"]
         ns.append({"label": rng.choice(pool), "taxa": labs})
     mats, trees = [], []
